@@ -19,7 +19,7 @@ BOUNDS = {
     "thorough": {"L": (2, 4), "C": (3, 5), "F": (4, 5), "K": (6, 7), "T": (4, 5), "M": (5, 5)},
 }
 PAIR_BOUNDS = {
-    "quick": {"L": (2, 3), "C": (3, 3), "F": (3, 3), "K": (4, 4), "T": (3, 4), "M": (4, 3)},
+    "quick": {"L": (2, 3), "C": (3, 3), "F": (3, 3), "K": (4, 3), "T": (3, 3), "M": (4, 3)},
     "thorough": {"L": (2, 4), "C": (3, 4), "F": (3, 4), "K": (4, 5), "T": (4, 5), "M": (4, 4)},
 }
 FAMILY_NAMES = {"L": "listeners", "C": "clusters+backends", "F": "http/https frontends", "K": "certificates",
@@ -173,9 +173,9 @@ def run_pairs(pid, tier, wd):
     def one(fam):
         maxobj, depth = PAIR_BOUNDS[tier][fam]
         cfg = write_cfg(wd, "pairs_%s.cfg" % fam, fam, maxobj, depth, thorough, "none", ["P_C06"], spec="PairSpec")
-        return fam, vlib.tlc(MODULE, cfg, pid, workers=4 if not thorough else 6, timeout=3000 if thorough else 900)
+        return fam, vlib.tlc(MODULE, cfg, pid, workers=2 if not thorough else 5, timeout=3000 if thorough else 900)
 
-    with concurrent.futures.ThreadPoolExecutor(max_workers=3) as ex:
+    with concurrent.futures.ThreadPoolExecutor(max_workers=6 if not thorough else 3) as ex:
         for fam, r in ex.map(one, families(tier)):
             out[fam] = r
     return out
